@@ -1028,3 +1028,210 @@ func checkDrop(p *Prog, fn *ssa.Function, name ssa.Value, frame *ssa.Parameter, 
 	}
 	return Discharged, "dropped only if absent from the original frame"
 }
+
+// ---- R103: SetFunc files a user function under the arity and operand type of its signature ----
+
+func init() {
+	register(&Rule{ID: "R103", Name: "SETFUNC-TABLE", Floor: 20,
+		Text: "in eval.Context.SetFunc every function signature accepted by the type switch is registered with the argument count of that signature (one parameter -> ArgCountOne, two -> ArgCountTwo) and the function type of its first parameter (int, float64, bool, *string -> FunctionTypeInt/Float/Bool/String): the pair handed to setFunc is resolved per case through the phis; setFunc stores the function under its name into singleArgs exactly when the count is ArgCountOne and into doubleArgs otherwise. Eval looks functions up by (operand type, arity, name): a function filed under the wrong pair is `not found`, or is applied to operands of another type",
+		Run:  runR103})
+}
+
+func runR103(c *Ctx) {
+	p := c.P
+	fn := p.Func("config/eval", "Context.SetFunc")
+	setter := p.Func("config/eval", "Context.setFunc")
+	if fn == nil || setter == nil {
+		c.undecided("config/eval.SetFunc", "-", "SetFunc / setFunc not found")
+		return
+	}
+	tpkg := p.PkgByID[rel("types")]
+	constOf := func(pkg *types.Package, name string) (int64, bool) {
+		if pkg == nil {
+			return 0, false
+		}
+		cst, ok := pkg.Scope().Lookup(name).(*types.Const)
+		if !ok {
+			return 0, false
+		}
+		v, ok := constantInt64(cst)
+		return v, ok
+	}
+	var typConst = map[string]int64{}
+	for k, n := range map[string]string{"int": "FunctionTypeInt", "float64": "FunctionTypeFloat", "bool": "FunctionTypeBool", "*string": "FunctionTypeString"} {
+		if tpkg == nil {
+			break
+		}
+		if v, ok := constOf(tpkg.Types, n); ok {
+			typConst[k] = v
+		}
+	}
+	acOne, ok1 := constOf(fn.Pkg.Pkg, "ArgCountOne")
+	acTwo, ok2 := constOf(fn.Pkg.Pkg, "ArgCountTwo")
+	if len(typConst) != 4 || !ok1 || !ok2 {
+		c.undecided("config/eval.SetFunc|constants", p.pos(fn.Pos()), "the FunctionType / ArgCount constants do not resolve")
+		return
+	}
+	// the call of setFunc and its (typ, ac) arguments
+	var call *ssa.Call
+	eachInstr(fn, func(in ssa.Instruction) {
+		if cl, ok := in.(*ssa.Call); ok && cl.Call.StaticCallee() == setter {
+			call = cl
+		}
+	})
+	if call == nil || len(call.Call.Args) < 3 {
+		c.undecided("config/eval.SetFunc|setFunc call", p.pos(fn.Pos()), "SetFunc does not call setFunc")
+		return
+	}
+	typArg, acArg := call.Call.Args[1], call.Call.Args[2]
+	// value of v when control arrives from block `from` (follow phis backwards along single-entry chains)
+	var valueFrom func(v ssa.Value, from *ssa.BasicBlock, d int) (int64, bool)
+	valueFrom = func(v ssa.Value, from *ssa.BasicBlock, d int) (int64, bool) {
+		if k, ok := constInt(v); ok {
+			return k, true
+		}
+		phi, ok := v.(*ssa.Phi)
+		if !ok || d > 6 {
+			return 0, false
+		}
+		for i, pb := range phi.Block().Preds {
+			if pb == from || blockReachesOnlyVia(from, pb, phi.Block()) {
+				return valueFrom(phi.Edges[i], from, d+1)
+			}
+		}
+		return 0, false
+	}
+	n := 0
+	eachInstr(fn, func(in ssa.Instruction) {
+		ta, ok := in.(*ssa.TypeAssert)
+		if !ok || !ta.CommaOk {
+			return
+		}
+		sig, ok := ta.AssertedType.(*types.Signature)
+		if !ok || sig.Params().Len() == 0 {
+			return
+		}
+		n++
+		key := "config/eval.SetFunc|case " + types.TypeString(sig, shortQual)
+		// the ok-true successor
+		var body *ssa.BasicBlock
+		for _, r := range *ta.Referrers() {
+			if ex, ok := r.(*ssa.Extract); ok && ex.Index == 1 {
+				for _, r2 := range *ex.Referrers() {
+					if iff, ok := r2.(*ssa.If); ok {
+						body = iff.Block().Succs[0]
+					}
+				}
+			}
+		}
+		if body == nil {
+			c.undecided(key, p.instrPos(ta), "the case body was not found")
+			return
+		}
+		// follow jumps to the block that feeds the phis
+		feeder := body
+		for len(feeder.Succs) == 1 && feeder.Succs[0] != call.Block() && len(feeder.Instrs) == 1 {
+			feeder = feeder.Succs[0]
+		}
+		gotTyp, okT := valueFrom(typArg, feeder, 0)
+		gotAc, okA := valueFrom(acArg, feeder, 0)
+		if !okT || !okA {
+			c.undecided(key, p.instrPos(ta), "the (type, arity) pair of this case does not resolve to constants")
+			return
+		}
+		wantAc := acOne
+		if sig.Params().Len() == 2 {
+			wantAc = acTwo
+		}
+		wantTyp, okW := typConst[types.TypeString(sig.Params().At(0).Type(), shortQual)]
+		switch {
+		case !okW:
+			c.bad(key, p.instrPos(ta), "a signature whose first parameter is not int, float64, bool or *string is accepted")
+		case gotAc != wantAc:
+			c.bad(key, p.instrPos(ta), fmt.Sprintf("a function of %d parameter(s) is filed under argument count %d", sig.Params().Len(), gotAc))
+		case gotTyp != wantTyp:
+			c.bad(key, p.instrPos(ta), fmt.Sprintf("a function over %s is filed under function type %d, not %d", sig.Params().At(0).Type(), gotTyp, wantTyp))
+		default:
+			c.ok(key, p.instrPos(ta), "filed under the arity and operand type of its signature")
+		}
+	})
+	if n == 0 {
+		c.undecided("config/eval.SetFunc|cases", p.pos(fn.Pos()), "no function signature is accepted")
+	}
+	// setFunc
+	for _, world := range []bool{true, false} {
+		key := fmt.Sprintf("config/eval.setFunc|world ac==ArgCountOne is %v", world)
+		pe := &pathExec{fn: setter}
+		pe.oracle = func(pe *pathExec, cond ssa.Value) (bool, bool) {
+			return pe.evalBool(cond, func(x ssa.Value) (bool, bool) {
+				b, ok := x.(*ssa.BinOp)
+				if !ok || len(setter.Params) < 3 || pe.resolve(b.X) != ssa.Value(setter.Params[2]) {
+					return false, false
+				}
+				k, isK := constInt(b.Y)
+				if !isK {
+					return false, false
+				}
+				isOne := world
+				switch {
+				case b.Op == token.EQL && k == acOne:
+					return isOne, true
+				case b.Op == token.NEQ && k == acOne:
+					return !isOne, true
+				case b.Op == token.EQL && k == acTwo:
+					return !isOne, true
+				case b.Op == token.NEQ && k == acTwo:
+					return isOne, true
+				}
+				return false, false
+			})
+		}
+		field := ""
+		pe.onInstr = func(pe *pathExec, in ssa.Instruction) {
+			if mu, ok := in.(*ssa.MapUpdate); ok {
+				if pe.resolve(mu.Key) == ssa.Value(setter.Params[3]) && pe.resolve(mu.Value) == ssa.Value(setter.Params[4]) {
+					field = fieldNameOfLoad(mu.Map)
+					if field == "" {
+						if f, ok := mu.Map.(*ssa.Field); ok {
+							field = f.X.Type().Underlying().(*types.Struct).Field(f.Field).Name()
+						}
+					}
+				}
+			}
+		}
+		end, why := pe.run()
+		if _, ok := end.(*ssa.Return); !ok {
+			c.undecided(key, p.pos(setter.Pos()), "cannot evaluate: "+why)
+			continue
+		}
+		want := "doubleArgs"
+		if world {
+			want = "singleArgs"
+		}
+		if field == want {
+			c.ok(key, p.pos(setter.Pos()), "stores fn under name into "+field)
+		} else {
+			c.bad(key, p.pos(setter.Pos()), fmt.Sprintf("the function is stored into %q (nothing if empty), not into %s", field, want))
+		}
+	}
+}
+
+func constantInt64(c *types.Const) (int64, bool) {
+	v, ok := constantToInt64(c.Val())
+	return v, ok
+}
+
+// blockReachesOnlyVia: from reaches phiBlock only through pred (a straight chain of jumps from `from` to pred).
+func blockReachesOnlyVia(from, pred, phiBlock *ssa.BasicBlock) bool {
+	b := from
+	for i := 0; i < 8; i++ {
+		if b == pred {
+			return true
+		}
+		if len(b.Succs) != 1 {
+			return false
+		}
+		b = b.Succs[0]
+	}
+	return false
+}
